@@ -152,3 +152,75 @@ func init() {
 	add(modulePath+"/chain/nom.file_chain_nom_protobuf_proto_init", nop)
 	add(modulePath+"/vm/embedded/definition.file_vm_embedded_definition_protobuf_proto_init", nop)
 }
+
+// ---- time.Time on whole-second instants without monotonic reading.
+// A Time built by time.Unix(sec, 0) has wall == 0 and ext == sec + unixToInternal.  For such values Add/Sub are
+// plain integer arithmetic on ext; anything else falls back to interpreting the time package.
+
+func timeParts(v Value) (wall, ext *Term, st Struct, ok bool) {
+	st, ok = v.(Struct)
+	if !ok || len(st) != 3 {
+		return nil, nil, nil, false
+	}
+	wall, ok1 := st[0].(*Term)
+	ext, ok2 := st[1].(*Term)
+	if !ok1 || !ok2 || !wall.IsConst() || wall.val.Sign() != 0 {
+		return nil, nil, nil, false
+	}
+	return wall, ext, st, true
+}
+
+func init() {
+	intrinsics["(time.Time).Add"] = func(in *Interp, fr *frame, fn *ssa.Function, a []Value) Value {
+		_, ext, st, ok := timeParts(a[0])
+		d, isT := a[1].(*Term)
+		if ok && isT {
+			tt := in.tt
+			e9 := tt.BVI(1000000000, 64)
+			whole := tt.Eq(tt.BvSrem(d, e9), tt.BVI(0, 64))
+			if whole.IsTrue() || (!whole.IsFalse() && in.truth(whole)) {
+				sec := tt.BvSdiv(d, e9)
+				sum := tt.BvAdd(ext, sec)
+				// time.Time.addSec saturates on overflow; stay within the non-overflowing region or fall back
+				noOv := tt.Eq(tt.BvSlt(ext, sum), tt.BvSlt(tt.BVI(0, 64), sec))
+				noOv = tt.Or(noOv, tt.Eq(sec, tt.BVI(0, 64)))
+				if noOv.IsTrue() || in.truth(noOv) {
+					return Struct{st[0], sum, st[2]}
+				}
+			}
+		}
+		return in.callBody(fr, fn, a)
+	}
+	intrinsics["(time.Time).Sub"] = func(in *Interp, fr *frame, fn *ssa.Function, a []Value) Value {
+		_, e1, _, ok1 := timeParts(a[0])
+		_, e2, _, ok2 := timeParts(a[1])
+		if ok1 && ok2 {
+			tt := in.tt
+			diff := tt.BvSub(e1, e2)
+			lim := int64(9000000000) // < 2^63 / 1e9
+			small := tt.And(tt.BvSlt(tt.BVI(-lim, 64), diff), tt.BvSlt(diff, tt.BVI(lim, 64)))
+			// the subtraction itself must not wrap: both ext values are in a sane range
+			sane := tt.And(tt.BvSlt(tt.BVI(-(1<<61), 64), e1), tt.BvSlt(e1, tt.BVI(1<<61, 64)))
+			sane = tt.And(sane, tt.And(tt.BvSlt(tt.BVI(-(1<<61), 64), e2), tt.BvSlt(e2, tt.BVI(1<<61, 64))))
+			c := tt.And(small, sane)
+			if c.IsTrue() || (!c.IsFalse() && in.truth(c)) {
+				return tt.BvMul(diff, tt.BVI(1000000000, 64))
+			}
+		}
+		return in.callBody(fr, fn, a)
+	}
+}
+
+// callBody interprets fn's SSA body, bypassing its intrinsic.
+func (in *Interp) callBody(caller *frame, fn *ssa.Function, args []Value) Value {
+	saved, had := in.intrCache[fn]
+	in.intrCache[fn] = nil
+	defer func() {
+		if had {
+			in.intrCache[fn] = saved
+		} else {
+			delete(in.intrCache, fn)
+		}
+	}()
+	return in.callSSA(caller, 0, fn, args, nil)
+}
